@@ -1,13 +1,10 @@
-import ModbusModel.Lemmas.Rtu
+import ModbusModel.Lemmas.RtuFraming
 import ModbusModel.Lemmas.RoundTrip
 /-
   C11 – RTU framing delivers every clean frame and resynchronises after line noise.
 -/
 namespace Modbus.Props.C11
 open Modbus
-
-/-- a well-formed RTU frame: address, PDU, CRC of both -/
-def rtuFrame (slave : UInt8) (pdu : Bytes) : Bytes := slave :: pdu ++ crcBytes (slave :: pdu)
 
 /-- **clean frame, one decode call**: when the length table names the PDU length of the frame at
     the head of the buffer, the frame is delivered at once – nothing is dropped, the bytes
@@ -128,5 +125,69 @@ example :
 example :
     (rtuDecode requestPduLen {} (List.replicate 21 0x80 ++ rtuFrame 0x00 [0x11])).1
       = .err .invalidData := by decide +kernel
+
+end Modbus.Props.C11
+
+namespace Modbus.Props.C11
+open Modbus
+
+/-- frames of typed requests within the limit are frames of the request-side RTU framing -/
+theorem request_frame_valid (slave : UInt8) (r : Request) (hs : requestPduSizeRaw r ≤ 253)
+    (ht : ∀ fc d, r ≠ .custom fc d) :
+    (rtuFraming requestPduLen requestPduLen_stable).Valid (rtuFrame slave (encodeRequestPdu r)) := by
+  refine ⟨slave, encodeRequestPdu r, rfl, ?_⟩
+  intro rest
+  have := request_table_agrees slave r rest hs ht
+  simpa [rtuFrame, List.append_assoc] using this
+
+/-- **rtu_chunking** (server side): any stream consisting of the frames of supported (typed)
+    requests, for any slave ids, cut into reads in any way with any `Pending`s in between and
+    followed by anything, is delivered by the RTU frame decoder completely, in order, each
+    frame exactly once; what follows stays in the reader. -/
+theorem rtu_chunking_requests (frames : List (UInt8 × Request)) (evs : List ReadEv) (tail : Bytes)
+    (hs : ∀ p ∈ frames, requestPduSizeRaw p.2 ≤ 253) (ht : ∀ p ∈ frames, ∀ fc d, p.2 ≠ .custom fc d)
+    (hfeed : ∀ e ∈ evs, e.isFeed = true)
+    (hdata : dataOf evs = (frames.map fun p => rtuFrame p.1 (encodeRequestPdu p.2)).flatten ++ tail) :
+    ∃ fd r' evs', pullN (rtuRawDecoder requestPduLen) frames.length {} {} evs
+        = (frames.map (fun p => .item (p.1, encodeRequestPdu p.2)), fd, r', evs')
+      ∧ r'.buffer ++ dataOf evs' = tail := by
+  let F := rtuFraming requestPduLen requestPduLen_stable
+  have hv : ∀ f ∈ frames.map (fun p => rtuFrame p.1 (encodeRequestPdu p.2)), F.Valid f := by
+    intro f hf
+    obtain ⟨p, hp, rfl⟩ := List.mem_map.mp hf
+    exact request_frame_valid p.1 p.2 (hs p hp) (ht p hp)
+  have hne : ∀ f ∈ frames.map (fun p => rtuFrame p.1 (encodeRequestPdu p.2)), f ≠ [] := by
+    intro f hf
+    obtain ⟨p, _, rfl⟩ := List.mem_map.mp hf
+    simp [rtuFrame]
+  have r0e : ({} : ReadFrame).hasErrored = false := rfl
+  have r0q : ({} : ReadFrame).eof = false := rfl
+  have r0b : ({} : ReadFrame).isReadable = false → ({} : ReadFrame).buffer = [] := fun _ => rfl
+  have hd0 : ({} : ReadFrame).buffer ++ dataOf evs
+      = (frames.map fun p => rtuFrame p.1 (encodeRequestPdu p.2)).flatten ++ tail := by
+    show [] ++ dataOf evs = _
+    rw [List.nil_append]; exact hdata
+  have H := stream_delivers (D := rtuRawDecoder requestPduLen) F
+    (frames.map fun p => rtuFrame p.1 (encodeRequestPdu p.2)) evs ({} : FrameDecoder) ({} : ReadFrame) tail
+  have H2 := H hv hne hfeed r0e r0q r0b hd0
+  obtain ⟨s', r', evs', h1, h2, _⟩ := H2
+  refine ⟨s', r', evs', ?_, h2⟩
+  have hitems : (frames.map fun p => rtuFrame p.1 (encodeRequestPdu p.2)).map (fun f => Polled.item (F.item f))
+      = frames.map (fun p => .item (p.1, encodeRequestPdu p.2)) := by
+    rw [List.map_map]
+    apply List.map_congr_left
+    intro p _
+    simp only [Function.comp]
+    congr 1
+    exact rtuFraming_item requestPduLen requestPduLen_stable p.1 (encodeRequestPdu p.2)
+  rw [hitems, List.length_map] at h1
+  exact h1
+
+-- non-vacuity: two request frames cut into odd pieces
+example :
+    (pullN (rtuRawDecoder requestPduLen) 2 {} {}
+      [.data [0x11, 0x03, 0x00], .pending, .data [0x6B, 0x00, 0x03, 0x76], .data [0x87, 0x01, 0x11],
+       .data [0xC0, 0x2C]]).1
+    = [.item (0x11, [0x03, 0x00, 0x6B, 0x00, 0x03]), .item (0x01, [0x11])] := by decide +kernel
 
 end Modbus.Props.C11
